@@ -27,6 +27,64 @@ TRUSTED_BASE = [
 ]
 
 
+def _kind(what: str) -> str:
+    import re
+    head, _, tail = what.partition(":")
+    return head.strip() + ":" + " ".join(re.sub(r"[-+]?\d[\d.e+-]*", "#", tail).split()[:4])
+
+
+def shrink(mod, prop: str, seed: int, out: Outcome, v: dict, budget_s: float = 20.0, max_evals: int = 200) -> dict:
+    """delta-debugging (ddmin) on the list-valued input of a violation: keep a reduction whenever the same kind of violation is still reported"""
+    payload = dict(v["replay"])
+    key = next((k for k in mod.SHRINK_KEYS if isinstance(payload.get(k), list) and len(payload[k]) > 1), None)
+    if key is None:
+        return v
+    want = _kind(v["what"])
+    t0, evals = time.time(), 0
+
+    def fails(cand: list):
+        nonlocal evals
+        evals += 1
+        o = Outcome(prop, "quick", seed)
+        o.findings = {k: f for k, f in getattr(out, "findings", {}).items()}
+        try:
+            mod.replay(o, {**payload, key: cand})
+        except Exception:  # noqa: BLE001
+            return None
+        for w in o.violations:
+            if _kind(w["what"]) == want:
+                return w
+        return None
+
+    cur, best = list(payload[key]), None
+    if fails(cur) is None:
+        return v          # not reproducible through replay(): keep the original
+    n = 2
+    while len(cur) >= 2 and time.time() - t0 < budget_s and evals < max_evals:
+        chunk = max(1, len(cur) // n)
+        reduced = False
+        for i in range(0, len(cur), chunk):
+            cand = cur[:i] + cur[i + chunk:]
+            if not cand:
+                continue
+            w = fails(cand)
+            if w is not None:
+                cur, best, reduced = cand, w, True
+                n = max(n - 1, 2)
+                break
+            if time.time() - t0 > budget_s or evals >= max_evals:
+                break
+        if not reduced:
+            if chunk == 1:
+                break
+            n = min(len(cur), n * 2)
+    if best is None:
+        return v
+    best["replay"]["shrunk_from_length"] = len(payload[key])
+    best["replay"]["shrink_evaluations"] = evals
+    return best
+
+
 def main() -> int:
     ap = argparse.ArgumentParser()
     ap.add_argument("prop")
@@ -72,6 +130,13 @@ def main() -> int:
         traceback.print_exc()
         print(f"INFRA-FAILURE property={prop}: harness exception")
         return 2
+
+    # shrink the first violation's input (ddmin over its stream / operation list) when the module can replay a payload
+    if out.violations and not a.replay and hasattr(mod, "SHRINK_KEYS") and not os.environ.get("VERIF_NO_SHRINK"):
+        try:
+            out.violations[0] = shrink(mod, prop, seed, out, out.violations[0])
+        except Exception:  # noqa: BLE001
+            pass
 
     rc = 0
     lines = []
